@@ -630,8 +630,16 @@ def run_case_c04(key):
 
     def compare(parent, child, hist, clean):
         bound = ode_bound(child.N, child.strain)
+        boundF = 2 * bound  # each member is within the bound of the true F (C06)
         if tight:
-            bound = 1e-5 * child.N
+            bound = boundF = 1e-5 * child.N
+        elif kind == "Q":
+            # default tolerances, rotated frame: the solver takes different steps (its
+            # absolute tolerance is per component), so the two members are two different
+            # approximations; observed orientation differences reach 5e-3 on correct code.
+            # This pass only looks for gross frame dependence (10 x the stated bound); the
+            # sharp comparison is the tight-tolerance pass.
+            bound = 10 * bound
         a, b = child.m, child.twin["m"]
         dA = df = 0.0
         if clean.any():
@@ -648,8 +656,8 @@ def run_case_c04(key):
                 V(res, key, "fractions_invariant", {"dev": df, "bound": bound}, hist=hist)
         cl["F_equivariant"] = cl.get("F_equivariant", 0) + 1
         dF = float(np.abs(child.twin["F"] - mapF(child.F)).max() / max(1.0, np.abs(child.F).max()))
-        if not dF <= bound:
-            V(res, key, "F_equivariant", {"dev": dF, "bound": bound}, hist=hist)
+        if not dF <= boundF:
+            V(res, key, "F_equivariant", {"dev": dF, "bound": boundF}, hist=hist)
         sfx = "_tight" if tight else ""
         for nm, v in (("max_texture_dev" + sfx, dA), ("max_fraction_dev" + sfx, df), ("max_F_dev" + sfx, dF)):
             if np.isfinite(v):
